@@ -3,7 +3,7 @@
    H*W elements); a chain is any finite list of view(rows, cols) / transpose
    operations with arbitrary signed, inclusive/exclusive/open selectors. *)
 From Coq Require Import List Arith Bool ZArith.
-From SNT Require Import Surface.Bounds Surface.Shape Surface.ShapeProofs.
+From SNT Require Import Surface.Bounds Surface.Shape Surface.ShapeProofs Surface.ShapeOpsProofs.
 Import ListNotations.
 
 (* the shape computed by the code for any chain represents the window that the
@@ -70,6 +70,32 @@ Theorem C07_fill_touches_exactly_the_window :
     (forall k, (forall r c, r < sh_height sh -> c < sh_width sh -> offset sh r c <> k) ->
        nth_error d' k = nth_error data k).
 Proof. intros A H W sh w data f Hrep Hlen. exact (fill_with_spec H W sh w data Hrep Hlen f). Qed.
+
+(* map / to_owned: no panic, exactly height x width items, f applied to the window's
+   cells in row-major order *)
+Theorem C07_map_reads_exactly_the_window :
+  forall (A B : Type) (H W : nat) (sh : shape) (w : window) (data : list A) (f : nat -> nat -> A -> B),
+  Rep H W sh w -> H * W <= length data ->
+  exists t, map_surf sh data f = Some t /\
+    length t = sh_height sh * sh_width sh /\
+    map Some t = map (fun p => option_map (f (fst p) (snd p)) (nth_error data (offset sh (fst p) (snd p))))
+                     (positions (sh_height sh) (sh_width sh)).
+Proof. intros A B H W sh w data f Hrep Hlen. exact (map_spec H W sh w data Hrep Hlen f). Qed.
+
+(* insert(pos, items): no panic; item i lands in the window cell with row-major index
+   pos.row*width + pos.col + i while that index is inside the window (excess items are
+   dropped), every other element of the backing vector is unchanged *)
+Theorem C07_insert_writes_only_window_cells :
+  forall (A : Type) (H W : nat) (sh : shape) (w : window) (data : list A) (r c : nat) (items : list A),
+  Rep H W sh w -> H * W <= length data ->
+  let start := r * sh_width sh + c in
+  let cells := map (fun p => offset sh (fst p) (snd p)) (positions (sh_height sh) (sh_width sh)) in
+  exists d', insert sh data r c items = Some d' /\ length d' = length data /\
+    (forall i o x, nth_error cells (start + i) = Some o -> nth_error items i = Some x ->
+                   nth_error d' o = Some x) /\
+    (forall k, (forall i, i < length items -> nth_error cells (start + i) <> Some k) ->
+               nth_error d' k = nth_error data k).
+Proof. intros A H W sh w data r c items Hrep Hlen. exact (insert_spec H W sh w data Hrep Hlen r c items). Qed.
 
 (* non-vacuity: the chain of test_chains (10x10, view(.., ..), view(1..-1, ..), view(.., 1..-1))
    and a transposed one; both satisfy the hypotheses *)
